@@ -324,6 +324,7 @@ func checkC19(c *Ctx) (string, error) {
 	checkC19b(c, sp)
 	checkSliceDataLenPairs(c, sp)
 	checkAfterInitAnchor(c, sp)
+	checkPyNulTerminatedCtors(c, sp)
 	checkPyCalleeSource(c, cp)
 
 	pv := findFunc(sp, "Builder.PyVal")
